@@ -38,7 +38,7 @@ PINS = {  # substring of the commit subject -> (property, [pinned replay files])
 PINS.update({
     "diff VJP zero cotangent": ("C05", ["regress/C05/diff-empty-complex.json"]),
     "linspace JVP returns a tangent": ("C05", ["regress/C05/linspace-jvp-mixed.json"]),
-    "where JVP": ("C05", ["regress/C05/where-jvp-mixed.json"]),
+    "where JVP returns a tangent in the output's space": ("C05", ["regress/C05/where-jvp-mixed.json"]),
 })
 PINS["select returns numpy"] = ("C06", ["regress/C06/select-mixed-dtype.json"])
 PINS["gradient of x[list_of_bools]"] = ("C11", ["regress/C11/bool-list-index.json"])
@@ -51,6 +51,9 @@ PINS["absolute has a finite"] = ("C01", ["regress/C01/absolute-at-zero.json", "r
 PINS["linspace VJP contracts the sample axis"] = ("C01", ["regress/C01/linspace-rank2.json"])
 PINS["eigh VJP keeps the eigenvector term"] = ("C07", ["regress/C07/eigh-zero-cotangent-guard.json"])
 PINS["list-form einsum VJP sums the broadcast axes"] = ("C01", ["regress/C01/einsum-list-trailing-ellipsis.json"])
+PINS["einsum VJP repeats a labelled axis"] = ("C05", ["regress/C05/einsum-size-one-label.json"])
+PINS["clip VJP reduces its cotangent"] = ("C01", ["regress/C01/clip-array-bounds-broadcast.json"])
+PINS["where JVP returns a tangent of the output's shape"] = ("C05", ["regress/C05/where-jvp-small-condition.json"])
 EXTRA = {}
 
 
